@@ -6,7 +6,9 @@ package main
 // API server, running watches of three types.
 
 import (
+	"context"
 	"fmt"
+	"k8s.io/apimachinery/pkg/apis/meta/v1/unstructured"
 	"sort"
 
 	"github.com/crossplane/crossplane/internal/engine"
@@ -49,7 +51,14 @@ func runGC(s *sink, c *kit.Ctx, i int, st *detStats) {
 				xrDesc = append(xrDesc, fmt.Sprintf("xr-%d->%s.%s", k, g.Kind, g.Group))
 			}
 		}
-		o := map[string]any{"apiVersion": xr.GroupVersion().String(), "kind": xr.Kind, "metadata": map[string]any{"name": fmt.Sprintf("xr-%d", k)}, "spec": map[string]any{}}
+		md := map[string]any{"name": fmt.Sprintf("xr-%d", k)}
+		terminating := rng.IntN(4) == 0
+		if terminating {
+			// an XR that is being deleted but still exists (held by its finalizer) still references
+			// its composed resources
+			md["finalizers"] = []any{"composite.apiextensions.crossplane.io"}
+		}
+		o := map[string]any{"apiVersion": xr.GroupVersion().String(), "kind": xr.Kind, "metadata": md, "spec": map[string]any{}}
 		if refs != nil || rng.IntN(2) == 0 {
 			if refs == nil {
 				refs = []any{}
@@ -57,6 +66,10 @@ func runGC(s *sink, c *kit.Ctx, i int, st *detStats) {
 			o["spec"] = map[string]any{"resourceRefs": refs}
 		}
 		sw.MustSeed("user", o)
+		if terminating {
+			_ = sw.Client("user").Delete(context.Background(), &unstructured.Unstructured{Object: o})
+			s.Count("gc.xrs_terminating", 1)
+		}
 	}
 	// XRs of ANOTHER controller reference kinds too; they must not keep this one's watches
 	for k := 0; k < rng.IntN(3); k++ {
